@@ -147,6 +147,35 @@ func fatJobs(c *core.Ctx, pl *fatPlan) []fatJob {
 
 // fatRunAll executes the jobs and validates the recorded trace with the given trace spec.
 func fatRunAll(c *core.Ctx, jobs []fatJob, module, cfgFile string, sha, raw bool, sig func(job fatJob, step int, ev map[string]any, detail string) ([]string, string)) {
+	// batches: the events of a batch (with their projections) are dropped once TLC has judged them,
+	// so that the thorough tier does not keep millions of projections in memory
+	const batch = 4000
+	accepted := map[string]int{}
+	executed, rejected := 0, 0
+	for lo := 0; lo < len(jobs); lo += batch {
+		hi := lo + batch
+		if hi > len(jobs) {
+			hi = len(jobs)
+		}
+		e, r, ok := fatRunBatch(c, jobs[lo:hi], lo, len(jobs), module, cfgFile, sha, raw, sig, accepted)
+		executed += e
+		rejected += r
+		if !ok {
+			return
+		}
+	}
+	c.Extra["accepted_calls_per_action"] = accepted
+	for _, a := range []string{"Mkdir", "Create", "WriteAt", "Append", "Trunc", "Rename", "Remove", "Fill"} {
+		if accepted[a] == 0 {
+			c.Broken("vacuous: no %s call was accepted by the real filesystem", a)
+		}
+	}
+	c.TracesValidated = int64(executed - rejected)
+	c.Extra["behaviours_executed"] = executed
+	c.Extra["behaviours_rejected"] = rejected
+}
+
+func fatRunBatch(c *core.Ctx, jobs []fatJob, base, total int, module, cfgFile string, sha, raw bool, sig func(job fatJob, step int, ev map[string]any, detail string) ([]string, string), accepted map[string]int) (executed, rejected int, ok bool) {
 	behs := make([][]map[string]any, len(jobs))
 	errs := make([]error, len(jobs))
 	parallel(len(jobs), func(i int) {
@@ -154,7 +183,6 @@ func fatRunAll(c *core.Ctx, jobs []fatJob, module, cfgFile string, sha, raw bool
 	})
 	var good [][]map[string]any
 	var goodJobs []fatJob
-	accepted := map[string]int{}
 	for i := range jobs {
 		if errs[i] != nil {
 			c.Broken("cannot create %v: %v", jobs[i].cfg, errs[i])
@@ -170,25 +198,19 @@ func fatRunAll(c *core.Ctx, jobs []fatJob, module, cfgFile string, sha, raw bool
 		}
 		key := fmt.Sprintf("%v|%v", jobs[i].cfg, jobs[i].ops)
 		c.Distinct(key)
-		if i%(len(jobs)/4+1) == 1 {
+		if (base+i)%(total/4+1) == 1 {
 			c.Sample(map[string]any{"cfg": jobs[i].cfg, "label": jobs[i].label, "ops": jobs[i].ops, "results": resultsOf(behs[i])})
-		}
-	}
-	c.Extra["accepted_calls_per_action"] = accepted
-	for _, a := range []string{"Mkdir", "Create", "WriteAt", "Append", "Trunc", "Rename", "Remove", "Fill"} {
-		if accepted[a] == 0 {
-			c.Broken("vacuous: no %s call was accepted by the real filesystem", a)
 		}
 	}
 	trace, first := fatTraceBytes(good)
 	tv, err := tlc.ValidateTrace(module, cfgFile, trace, nil, 40*time.Minute, false)
 	if err != nil {
 		c.Broken("%s: %v", module, err)
-		return
+		return len(good), 0, false
 	}
 	if tv.InvViolated != "" {
 		c.Broken("%s invariant on matched steps: %s", module, tv.InvViolated)
-		return
+		return len(good), 0, false
 	}
 	bad := map[int]bool{}
 	for k, idx := range tv.Mismatches {
@@ -206,9 +228,7 @@ func fatRunAll(c *core.Ctx, jobs []fatJob, module, cfgFile string, sha, raw bool
 		}
 		c.Fail(sigs, msg, map[string]any{"cfg": goodJobs[bi].cfg, "label": goodJobs[bi].label, "ops_up_to_failure": ops, "results_up_to_failure": resultsOf(good[bi][:step+1]), "failing_step": step, "event": ev, "previous_event": prevEv(good[bi], step)})
 	}
-	c.TracesValidated = int64(len(good) - len(bad))
-	c.Extra["behaviours_executed"] = len(good)
-	c.Extra["behaviours_rejected"] = len(bad)
+	return len(good), len(bad), true
 }
 
 func resultsOf(evs []map[string]any) []string {
@@ -272,7 +292,9 @@ func C01(c *core.Ctx) {
 	if !ok {
 		return
 	}
-	fatRunAll(c, fatJobs(c, pl), "FatTree_Trace", "FatTree_Trace.cfg", false, false, c01Sig)
+	jobs := fatJobs(c, pl)
+	fmt.Printf("C01 behaviours to execute: %d\n", len(jobs))
+	fatRunAll(c, jobs, "FatTree_Trace", "FatTree_Trace.cfg", false, false, c01Sig)
 }
 
 func prevEv(evs []map[string]any, step int) map[string]any {
